@@ -100,6 +100,11 @@ def judge_recv(c, res, build):
     return None
 
 
+# level patterns of the send side, cycled outermost first: v variant, d dict a{y..}, a array, s struct; capitals = the by-reference
+# containers (DictRef, ArrayRef, StructRef)
+SEND_PATTERNS = ["vd", "dv", "vD", "Dv", "vda", "vsd", "vdd", "vads", "vSAD", "vdvs", "v" + "d" * 15, "v" + "D" * 15, "v" + "a" * 7 + "d" * 7 + "s" * 7, "vA", "vS"]
+
+
 def gen_send(g):
     cases = []
 
@@ -136,6 +141,24 @@ def gen_send(g):
         # the typed entry of the Param marshaller: push_param(&params::Variant) = marshal_variant_param
         add("SD tv %d" % d, d <= 64, "params::Variant pushed through the typed API, %d variant levels in all" % d,
             model="MP le 0 " + " ".join(toks) if d <= 100 else None)
+    # every kind of level (dict levels included, owned and by reference) alone with variants and mixed with the others, at and
+    # around the limit and far beyond it; the extracted marshaller model runs on the same tree (token syntax of ocaml/wire)
+    for pi, pat in enumerate(SEND_PATTERNS):
+        for d in (1, 32, 63, 64, 65, 66, 100, 128, 1000):
+            toks, sig = ["y", "7"], "y"
+            for lvl in reversed(range(d)):
+                k = pat[lvl % len(pat)].lower()
+                if k == "v":
+                    toks, sig = ["v", sig] + toks, "v"
+                elif k == "a":
+                    toks, sig = ["a", sig, "1"] + toks, "a" + sig
+                elif k == "s":
+                    toks, sig = ["r", "1"] + toks, "(" + sig + ")"
+                else:
+                    toks, sig = ["e", "y", sig, "1", "y", "3"] + toks, "a{y" + sig + "}"
+            lv = "".join(pat[i % len(pat)] for i in range(d))
+            add("SD p:%s %d" % (pat, d), d <= 64, "Param tree of %d nested levels of pattern %s (%d dict levels)" % (d, pat, lv.lower().count("d")),
+                model="MP %s 0 " % ("le" if pi % 2 == 0 else "be") + " ".join(toks) if d <= 100 else None)
     # typed values of self-referential types (a derived enum, a dbus_variant_sig! enum, a Vec of the former)
     for kind in ("drec", "msrec", "vec"):
         for d in (1, 33, 61, 63, 64, 65, 66, 67, 101, 401):
@@ -207,7 +230,8 @@ def run(ctx):
                 "boundary values 2^26-8..2^26+8, 2^27-1..2^27+1 of the total, 2^32-1, and fixed headers invalid in other ways, each run "
                 "against a real connection with the allocator high-water mark recorded; decode cases = C04's nesting and length bombs with "
                 "the verdict the limits demand; send cases = arrays at and just above 2^26 bytes through the slice, per-element, typed "
-                "HashMap<u32,String>, Param array and Param dict paths (a{uu} with 2^23 entries: thorough only), Param trees 1..1000 deep, "
+                "HashMap<u32,String>, Param array and Param dict paths (a{uu} with 2^23 entries: thorough only), Param trees 1..1000 deep whose levels cycle through "
+                "patterns of variant / struct / array / dict (owned and by-reference) levels, "
                 "typed self-referential values (derived enum, dbus_variant_sig! enum, Vec of them) nested 3..401 levels pushed, marshalled and "
                 "sent over a real connection, messages of exactly 2^27 - 1 .. 2^27 + 8 bytes in total, Param variants through the typed push of params::Variant; every case on the release and the debug build; receive verdicts: "
                 "refused = the call ends with the limit error (never TimedOut) and < 64 KiB allocated; accepted = at most the announced size "
